@@ -889,6 +889,22 @@ def _judge(case, spec, res, seed):
         dic2 = None
     res["info"]["displaced"] = dic2 is not None
 
+    # -- what the requested model fixes must not move with the sampled / optimised leaves
+    if dic2 is not None:
+        ex = effective_extra(case)
+        fixed = []
+        if case["model"] in ("K80", "SYM"):
+            fixed.append(("substmodel.frequencies", f"-m {case['model']} has fixed (equal) frequencies"))
+        if ex.get("rate"):
+            fixed.append(("branchmodel.rate", "--rate fixes the substitution rate"))
+        for pid, why in fixed:
+            if pid in dic and pid in dic2:
+                a, b = dic[pid].tensor.detach(), dic2[pid].tensor.detach()
+                if a.shape != b.shape or not bool(torch.allclose(a, b, rtol=0.0, atol=1e-12)):
+                    fails.append(("model_fixed", f"{pid} is moved by the algorithm",
+                                  f"{why}, but {pid} changes from {a.tolist()} to {b.tolist()} when the "
+                                  f"parameters the algorithm moves are displaced"))
+
     # -- Jacobian accounting
     if sub != "map":
         try:
